@@ -214,7 +214,14 @@ def IncTree.depth : IncTree → Nat
   | .line _ rest => rest.depth
   | .inc _ sub rest => max (sub.depth + 1) rest.depth
 
-/-- the tree describes the text whose directory is `base`, on `fs` with -i directories `dirs` -/
+/-- the tree describes the text whose directory is `base`, on `fs` with -i directories `dirs`.
+    OUTSIDE: a text that contains an `include_bytes` line, at any level — `line` asks for
+    `IsPlainLine` (neither an include nor an include_bytes line).  This is not an omission of
+    convenience: `include_bytes rel` is resolved relative to the directory of the file it stands in,
+    so moving the line into the including text (the splice) may resolve `rel` to a different file or
+    to none; splicing is textual only for the lines `IsPlainLine` admits.  (An include_bytes line in
+    the MAIN text, outside any included file, keeps its directory; `SpellRel.keep` in C13 and
+    `include_is_splice` here cover it as a kept line, the tree theorems do not.) -/
 inductive IncTree.Valid (fs : FS) (dirs : List String) : String → IncTree → Prop
   | nil (base : String) : IncTree.Valid fs dirs base .nil
   | line (base : String) (raw : List Char) (rest : IncTree) :
@@ -277,7 +284,8 @@ theorem go_tree (fs : FS) (dirs : List String) {base : String} {t : IncTree}
       plainContents_append]
     rfl
 
-/-- **include is textual splicing, at any depth.**  `source` is a text whose lines form a valid
+/-- **include is textual splicing, at any depth.**  (Trees with an `include_bytes` line anywhere are
+    outside: see `IncTree.Valid`.)  `source` is a text whose lines form a valid
     include tree `t` (relative to `base`, -i directories `dirs`), nested no deeper than the fuel:
     `read_lines` SUCCEEDS and the contents of the lines it returns are exactly the non-blank lines
     of `t.flat` — the text obtained by replacing, recursively, every include line by the lines of
@@ -310,7 +318,8 @@ theorem flat_reads (fs : FS) (dirs : List String) (fuel : Nat) (path base base' 
   rw [readLinesAux.eq_2, hflat]
   exact contentsOf_go_plain _ _ _ _ _ _ hv.flat_plain 1
 
-/-- **C14, splice clause, any depth**: the program A whose includes form the valid tree `t` (nested
+/-- **C14, splice clause, any depth** (no `include_bytes` lines in the tree: see `IncTree.Valid`;
+    failures told apart: `include_tree_same_result_errors`): the program A whose includes form the valid tree `t` (nested
     no deeper than the number of files + 1, the fuel `assemble` runs with) and the program B that is
     the spliced text `t.flat` assemble to the same bytes, labels and constants, or both fail — and the
     failure is then not one of reading (`include_tree_reads`). -/
@@ -327,6 +336,43 @@ theorem include_tree_same_result (fs : FS) (cwd : String) (dirs : List String) (
     erasedItems_bind_of_contents _ _
       ((include_tree_splice fs dirs (fs.files.length + 1) "<string>" cwd A.toList t hA hv hd).trans
         (flat_reads fs dirs (fs.files.length + 1) "<string>" cwd cwd B.toList t hB hv).symm)]
+
+/-- **… with the errors kept apart** (review finding X4: `resultOf` maps every failure to `none`).
+    Reading never fails for a valid tree (`include_tree_reads`); when the front end (lexer, parser)
+    accepts the including text A it accepts the spliced text B with the same items up to `Line`
+    metadata, and the two outcomes of `assembleText` are EQUAL as `Except` values once the `Line`
+    carried by an AssemblerError is erased: the same bytes / labels / constants, or the same kind of
+    failure (AssemblerError ↔ AssemblerError, the same escaping exception, the same `unsupported`).
+    The line itself differs legitimately: file names and numbers are those of the included files on
+    one side and of the flat text on the other. -/
+theorem include_tree_same_result_errors (fs : FS) (cwd : String) (dirs : List String) (c : Bool) (A B : String)
+    (t : IncTree)
+    (hcwd : normAbs cwd = true) (hdirs : dirs.all absOk = true)
+    (hasciiA : A.toList.all (fun c => c.toNat < 128) = true)
+    (hasciiB : B.toList.all (fun c => c.toNat < 128) = true)
+    (hA : splitLines A.toList = t.lines) (hB : splitLines B.toList = t.flat)
+    (hv : IncTree.Valid fs dirs cwd t) (hd : t.depth ≤ fs.files.length + 1)
+    {its : List Item} (hf : frontEnd fs cwd dirs (.source A) = .ok its) :
+    ∃ its', frontEnd fs cwd dirs (.source B) = .ok its' ∧ its'.map eraseLine = its.map eraseLine ∧
+      mapErrLine (fun _ => default) (assembleText fs cwd dirs c (.source B)) =
+        mapErrLine (fun _ => default) (assembleText fs cwd dirs c (.source A)) := by
+  have he : erasedItems (frontEnd fs cwd dirs (.source A)) = erasedItems (frontEnd fs cwd dirs (.source B)) := by
+    rw [frontEnd_source fs cwd dirs A hcwd hdirs hasciiA, frontEnd_source fs cwd dirs B hcwd hdirs hasciiB]
+    exact erasedItems_bind_of_contents _ _
+      ((include_tree_splice fs dirs (fs.files.length + 1) "<string>" cwd A.toList t hA hv hd).trans
+        (flat_reads fs dirs (fs.files.length + 1) "<string>" cwd cwd B.toList t hB hv).symm)
+  rw [hf] at he
+  cases hb : frontEnd fs cwd dirs (.source B) with
+  | error e => rw [hb] at he; simp [erasedItems] at he
+  | ok its' =>
+    rw [hb] at he
+    simp only [erasedItems, Option.some.injEq] at he
+    refine ⟨its', rfl, he.symm, ?_⟩
+    simp only [assembleText, hf, hb, bind, Except.bind]
+    rw [← assembleItems_mapLine (textHooks fs) _ (textHooks_natural fs _),
+      ← assembleItems_mapLine (textHooks fs) _ (textHooks_natural fs _)]
+    show assembleItems (textHooks fs) c (its'.map eraseLine) [] [] = assembleItems (textHooks fs) c (its.map eraseLine) [] []
+    rw [he]
 
 /-! ### non-vacuity: a concrete two-file filesystem in which the include is spliced -/
 
